@@ -18,7 +18,6 @@ NOT_APPLICABLE = {
     "C28": "agreement of two model implementations and variance normalisation across resolutions: numerical",
     "C31": "index/parent/child/coordinate round-trips over generated grids: integer-array arithmetic on run-time shapes, no finite static abstraction in reach",
     "C34": "exactness of Lanczos/SLQ/ELBO estimators in the limit: numerical",
-    "C35": "responses compute line integrals / Fourier sums / interpolation: numerical",
 }
 
 
